@@ -203,7 +203,7 @@ def rand_do_line(rng, chars=None):
     set_prompt) - any order, any number"""
     toks = []
     for _ in range(rng.choice([1, 2, 2, 3, 4])):
-        k = rng.choice("sslnmpgcfute")
+        k = rng.choice("sslnmpgcfutex")       # x: the processor rejects the command after the output so far (odd history sizes only)
         if k in "pg":
             t = bytes([rng.choice(b"01234567abc")])
         else:
